@@ -169,6 +169,21 @@ package types
 //@   loop 1:
 //@     invariant 0 <= iter && iter <= len(votesByBlock.votes)
 
+//@ func (voteSet *VoteSet) Size() (r int)
+//@   for C18
+//@   safe
+//@   requires voteSet != nil ==> voteSet.valSet != nil
+//@   modifies nothing
+//@   ensures voteSet == nil ==> r == 0
+//@   ensures voteSet != nil ==> r == len(voteSet.valSet.Validators)
+// The bit array handed out for a block id is a private, well-formed copy (or nil).
+//@ func (voteSet *VoteSet) BitArrayByBlockID(blockID BlockID) (r *cmn.BitArray)
+//@   for C18
+//@   safe
+//@   requires voteSet != nil ==> wfVS(voteSet)
+//@   modifies nothing
+//@   ensures [privateWellFormedCopyOrNil] r == nil || (fresh(r) && common.wfBits(r))
+
 //@ func (voteSet *VoteSet) HasTwoThirdsAny() (r bool)
 //@   for C02
 //@   requires voteSet != nil ==> wfVS(voteSet)
@@ -531,6 +546,26 @@ package types
 //@ trusted func (ps *PartSet) HasHeader(header PartSetHeader) (r bool)
 //@ trusted func (ps *PartSet) Header() (r PartSetHeader)
 
+// Stateless validation of hashes, part-set headers and block ids touches nothing.
+//@ func ValidateHash(h common.Hash) (err error)
+//@   for C18
+//@   safe
+//@   modifies nothing
+//@ func (psh PartSetHeader) ValidateBasic() (err error)
+//@   for C18
+//@   safe
+//@   modifies nothing
+//@ func (blockID BlockID) ValidateBasic() (err error)
+//@   for C18
+//@   safe
+//@   modifies nothing
+//@ func (part *Part) ValidateBasic() (err error)
+//@   for C18 C13
+//@   safe
+//@   requires part != nil
+//@   modifies nothing
+//@   ensures [sizeBounded] err == nil ==> len(part.Bytes) <= BlockPartSizeBytes
+
 //@ func (blockID *BlockID) IsZero() (r bool)
 //@   for C02 C03 C13 C11
 //@   requires blockID != nil
@@ -690,9 +725,19 @@ package types
 //@   for C13 C18 C11
 //@   ensures r != nil
 //@   ensures [fieldsCopied] p != nil ==> fresh(r) && r.Height == p.Height && r.Round == p.Round && r.PolRound == p.POLRound && r.Timestamp == p.Timestamp && r.Signature == p.Signature && content(r.BlockID.Hash) == content(p.POLBlockID.Hash) && r.BlockID.PartSetHeader.Total == p.POLBlockID.PartsHeader.Total && content(r.BlockID.PartSetHeader.Hash) == content(p.POLBlockID.PartsHeader.Hash)
+// A proposal accepted from the wire names a block of at most MaxBlockPartsCount parts: the receiver
+// allocates one bit (peer state) and one slot (part set) per part before it has seen any of them.
+//@ func (p *Proposal) ValidateBasic() (err error)
+//@   for C18
+//@   safe
+//@   requires p != nil
+//@   modifies nothing
+//@   ensures [partsTotalBounded] err == nil ==> p.POLBlockID.PartsHeader.Total <= MaxBlockPartsCount
+//@   ensures [signed] err == nil ==> len(p.Signature) > 0
 //@ func ProposalFromProto(pp *kproto.Proposal) (r *Proposal, err error)
 //@   for C13 C18
 //@   ensures pp == nil ==> err != nil
+//@   ensures [validated] err == nil ==> r != nil && r.POLBlockID.PartsHeader.Total <= MaxBlockPartsCount && len(r.Signature) > 0
 //@   ensures [fieldsCopied] err == nil ==> r != nil && fresh(r) && r.Height == pp.Height && r.Round == pp.Round && r.POLRound == pp.PolRound && r.Timestamp == pp.Timestamp && r.Signature == pp.Signature
 //@ func (blockID *BlockID) ToProto() (r kproto.BlockID)
 //@   for C13 C18
